@@ -224,7 +224,9 @@ def _run(prop, a, seed, t0):
             # candidate counterexamples (quantified hypotheses dropped): only a failing replay makes them count
             for u, o in insts:
                 urtc = _unit_rtc(u, rtc)
-                if o.verdict == "candidate" and u.to_case is not None and urtc is not None and oid not in seen_refuted:
+                # (an undecided VC without any model is searched the same way: the unit's standard inputs are replayed; only a
+                # failing replay on the real code counts)
+                if o.verdict in ("candidate", "undecided") and u.to_case is not None and urtc is not None and oid not in seen_refuted:
                     try:
                         case = u.to_case(o)
                     except Exception:
@@ -234,7 +236,8 @@ def _run(prop, a, seed, t0):
                         if not ok:
                             seen_refuted.add(oid)
                             path = _write_replay(prop, oid, {"property": prop, "obligation": oid, "source": "undecided VC; candidate counterexample of its quantifier-free part fails on the real code", "replay_with": urtc.__name__, "backend": o.backend, "solver_model": o.model, "case": case, "replay_message": str(msg)})
-                            violations.append((f"obligation {oid} undecided; candidate counterexample fails on the real code: {msg}", path, False))
+                            how = "candidate counterexample" if o.verdict == "candidate" else "one of the unit's standard replay inputs"
+                            violations.append((f"obligation {oid} undecided; {how} fails on the real code: {msg}", path, False))
                             break
             undecided.append(oid)
             continue
